@@ -21,6 +21,19 @@ namespace LexVerif.Model.Ops.WriteFloat
 open LexVerif.Spec LexVerif.Model LexVerif.Model.WriteFloat
 open LexVerif.Model.WriteInt (Res)
 
+/-- which `buffer_size_const` the code under test has: `false` = the formula of the current /repo HEAD, `true` = after
+`fixes/C09-buffer-size-const.diff`.  Flip together with committing the fix in /repo. -/
+def repoHasFixedBufferSize : Bool := true
+
+/-- `buffer_size_const` of the code under test -/
+def boundOf (feats : Features) (f : Fmt) (fmt : Format) (o : WOpts) : Nat :=
+  if repoHasFixedBufferSize then bufferSizeConstFixed feats f fmt o else bufferSizeConst feats f fmt o
+
+/-- `write_float` of the code under test -/
+def writeFloatCur (feats : Features) (f : Fmt) (fmt : Format) (o : WOpts) (debug : Bool) (bits : Nat)
+    (digits : List Nat × Int) (buf : List Nat) : Outcome :=
+  writeFloatB (boundOf feats f fmt o) feats f fmt o debug bits digits buf
+
 def optNat (s : String) : Option Nat := if s = "-" then none else s.toNat?
 def optInt (s : String) : Option Int := if s = "-" then none else s.toInt?
 def optBytes (s : String) : Option (List Nat) := if s = "-" then none else some (unhexBytes s)
@@ -61,7 +74,7 @@ def renderOutcome (facade : Bool) (bound : Nat) : Outcome → String
   | .other _ _ => "-"
 
 def bufOf (feats : Features) (f : Fmt) (fmt : Format) (o : WOpts) (buflen : String) : List Nat :=
-  let bound := bufferSizeConst feats f fmt o
+  let bound := boundOf feats f fmt o
   List.replicate (if buflen = "-" then bound else buflen.toNat?.getD 0) 170
 
 /-- model column of a `wf`-like call -/
@@ -74,7 +87,7 @@ def runWF (feats : Features) (ty : String) (fmt : Format) (bitsHex : String) (o 
     | some e => some s!"opterr {e} -"
     | none =>
       let bits := (ofHex bitsHex).getD 0
-      let bound := bufferSizeConst feats f fmt o
+      let bound := boundOf feats f fmt o
       let buf := bufOf feats f fmt o (if facade then "-" else buflen)
       let cands := if backend feats fmt ≠ .decimal ∧ ¬ f.isSpecial bits then [] else oracleDigits feats f bits
       -- with no digit candidates only the digit-independent up-front asserts can be predicted
@@ -82,7 +95,7 @@ def runWF (feats : Features) (ty : String) (fmt : Format) (bitsHex : String) (o 
         | [] =>
           if buf.length < bound ∨ ¬ FormatError.isValid feats fmt.raw ∨ ¬ mixedRadixOk feats fmt then ["panic"] else ["-"]
         | _ => cands.map fun c =>
-            let r := renderOutcome facade bound (writeFloat feats f fmt o false bits c buf)
+            let r := renderOutcome facade bound (writeFloatCur feats f fmt o false bits c buf)
             if dflt ∧ ¬ facade then String.intercalate " " ((r.splitOn " ").take 3) else r
       some (" || ".intercalate outs.eraseDups)
 
@@ -102,7 +115,7 @@ def handle (feats : Features) (t : List String) : Option String :=
       let o := wOptsOf (rest.take 10)
       match wOptsError o with
       | some e => some s!"opterr {e} -"
-      | none => some s!"ok {bufferSizeConst feats fl (fmtOf f) o}"
+      | none => some s!"ok {boundOf feats fl (fmtOf f) o}"
   | _, _ => none
 
 /-- list-level specification of a `wf`-like call -/
@@ -115,7 +128,7 @@ def specWF (feats : Features) (ty : String) (fmt : Format) (bitsHex : String) (o
     | some e => some s!"opterr {e} -"
     | none =>
       let bits := (ofHex bitsHex).getD 0
-      let bound := bufferSizeConst feats f fmt o
+      let bound := boundOf feats f fmt o
       let short := ¬ facade ∧ buflen ≠ "-" ∧ buflen.toNat?.getD 0 < bound
       if ¬ FormatError.isValid feats fmt.raw ∨ ¬ mixedRadixOk feats fmt then some "panic"
       else
@@ -147,7 +160,7 @@ def spec (feats : Features) (t : List String) : Option String :=
       let o := wOptsOf (rest.take 10)
       match wOptsError o with
       | some e => some s!"opterr {e} -"
-      | none => some s!"ok {bufferSizeConst feats fl (fmtOf f) o}"
+      | none => some s!"ok {boundOf feats fl (fmtOf f) o}"
   | "jfmt", ty :: f :: b :: rest =>
     match Fmt.ofName ty with
     | none => none
@@ -167,10 +180,10 @@ def spec (feats : Features) (t : List String) : Option String :=
       let ds := unhexBytes (rest.getD 10 "_")
       let sci := (rest.getD 11 "0").toInt?.getD 0
       let fmt := fmtOf f
-      let bound := bufferSizeConst feats fl fmt o
+      let bound := boundOf feats fl fmt o
       let buf := bufOf feats fl fmt o (rest.getD 12 "-")
       let dbg := rest.getD 13 "" = "dbg"
-      some (match writeFloat feats fl fmt o dbg bits (ds, sci) buf with
+      some (match writeFloatCur feats fl fmt o dbg bits (ds, sci) buf with
         | .done w => s!"ok {hexBytes (w.bytes.take w.len)} clean {bound} {w.hi}"
         | .panic => "panic"
         | .fault => "fault"
